@@ -10,7 +10,7 @@ import TlsModel.ErrPath
         -> <outcome> iters=<n> reads=<n> extracts=<n> warnings=<n> rest=<n> buf=<ccs>.<alert>.<hs>
     ch  pe= cv= se= ce= nc= sv= sa= alpn= sni= ems= ecpf= pha= pm= psk= sg= ks= ed= hb= rsl= ct= min= max= vers=
         -> alert:<d>:<message> | pass | escape:<...>
-    sh  pe= v= sv= al= hrr= sid= co= cto= cn= tack= npn= ems= alpn= afo= hb= rsl= ks= psk=
+    sh  pe= v= sv= al= hrr= sid= co= cto= cn= tack= npn= ems= alpn= afo= hb= ecpf= rsl= ks= psk=
         cmin= cmax= cvers= rems= stack= snpn= salpn= uhb= hbcb= shares= pskn=
         -> same
     decomp declared= clen= known= avail= complete= corrupt= [old=1]  -> accepted=0|1 produced=<n> alert=<d|->
@@ -116,6 +116,7 @@ def shOf (m : List (String × String)) : Option (CliState × SH) := do
       alpn := ← extOf (← e "alpn") (fun s => if s.startsWith "L" then csvNats (s.drop 1).toString else none),
       alpnFirstOffered := ← boolOf m "afo",
       heartbeat := ← extOf (← e "hb") String.toNat?,
+      ecPointFormats := ← extOf (← e "ecpf") optList,
       recordSizeLimit := ← extOf (← e "rsl") optNat,
       keyShare := ← extOf (← e "ks") optNat,
       psk := ← extOf (← e "psk") optNat }
